@@ -8,10 +8,13 @@ import (
 	"fmt"
 	"go/ast"
 	"go/constant"
+	"go/parser"
 	"go/printer"
 	"go/token"
 	"go/types"
 	"math/big"
+	"os"
+	"runtime/debug"
 	"sort"
 	"strings"
 
@@ -84,6 +87,13 @@ func (x *Exec) installTypeInvariantHook() {
 			if idx, _, ok := fieldIndexDeep(t, ci.ChanSrc); ok && len(idx) == 1 {
 				if cv, ok := v.F[idx[0]].(*ChanV); ok && cv.Obj != nil {
 					x.attachEngineChanInv(cv.Obj, ci)
+				}
+			}
+		}
+		for _, f := range x.P.semaphoresOfType(t) {
+			if idx, _, ok := fieldIndexDeep(t, f); ok && len(idx) == 1 {
+				if cv, ok := v.F[idx[0]].(*ChanV); ok && cv.Obj != nil {
+					x.E.semaphores[cv.Obj.id] = true
 				}
 			}
 		}
@@ -670,6 +680,20 @@ func (x *Exec) Run() {
 		}
 	}
 	x.entryChanInvs(s)
+	if x.c != nil {
+		senv := x.specEnv(s, nil)
+		for _, src := range x.c.Semaphores {
+			e, err := parser.ParseExpr(src)
+			if err != nil {
+				x.errorf("bad semaphore expression %q", src)
+				continue
+			}
+			if cv, ok := senv.eval(e).(*ChanV); ok && cv.Obj != nil {
+				x.E.semaphores[cv.Obj.id] = true
+			}
+		}
+		senv.syncFacts()
+	}
 	s.top().k = func(s *State, ret Val) { x.atReturn(s, ret) }
 	x.collectInputs(s)
 	x.runBlock(s, x.fn.Blocks[0], nil)
@@ -848,6 +872,15 @@ func (x *Exec) atReturn(s *State, ret Val) {
 		return
 	}
 	x.checkTypeInvariants(s)
+	// semaphore typestate: every slot taken by this activation is given back
+	for _, k := range sortedWriteKeys(s.writes) {
+		o := s.writes[k].obj
+		if o.kind == "chan" && x.E.semaphores[o.id] {
+			if cs, ok := x.E.objVal(s, o).(*ChanStore); ok {
+				x.oblige(s, "typestate", "slot-returned:"+o.name, Eq(cs.Held, Int(0)), nil, "at return this activation must hold no token of the semaphore channel (neither kept nor over-released)")
+			}
+		}
+	}
 	if x.c == nil {
 		return
 	}
@@ -1168,7 +1201,7 @@ func (x *Exec) enterLoop(s *State, li *loopInfo, b *ssa.BasicBlock, pred *ssa.Ba
 	if li.spec != nil {
 		env := x.specEnvFrame(s)
 		for _, inv := range li.spec.Invariants {
-			s.assume(env.evalBool(inv.Expr))
+			env.assumeEnsures(inv.Expr, nil, nil)
 		}
 	}
 	return !s.dead
@@ -1332,6 +1365,16 @@ func (x *Exec) execSelect(s *State, in *ssa.Select, b *ssa.BasicBlock, i int) {
 		idx := ci
 		if ci == n {
 			idx = -1
+			// default of a non-blocking select: a receive from a semaphore this
+			// activation holds a token of cannot find the channel empty
+			for _, st := range in.States {
+				if st.Dir == types.RecvOnly {
+					if c, cs := x.chanStore(ps, x.val(ps, st.Chan)); cs != nil && x.E.semaphores[c.Obj.id] {
+						ps.assume(Le(cs.Held, Int(0)))
+						x.E.assumeNote("semaphore protocol (rely): tokens an activation holds are physically in the channel, so a non-blocking receive cannot fall through to default while it holds one")
+					}
+				}
+			}
 		}
 		tv.E = append(tv.E, Int(int64(idx)))
 		okv := Var(fmt.Sprintf("%s.%s.recvok%d", fnDisplay(in.Parent()), in.Name(), ci), SBool)
@@ -1393,8 +1436,20 @@ func (x *Exec) chanRecv(s *State, cv Val, elem types.Type, name string, okv *Ter
 		}
 	}
 	c, cs := x.chanStore(s, cv)
+	if cs != nil && x.E.semaphores[c.Obj.id] {
+		// releasing a slot: only a slot this activation holds may be taken out
+		goal := Ge(cs.Held, Int(1))
+		x.oblige(s, "typestate", "release-only-if-held@"+x.label(s, site), goal, site, "a token is received from the semaphore channel while this activation holds none (it would release a slot that belongs to another read)")
+		s.assume(goal)
+		if s.dead {
+			return v
+		}
+	}
 	if cs != nil {
 		n := *cs
+		if x.E.semaphores[c.Obj.id] {
+			n.Held = Sub(cs.Held, Int(1))
+		}
 		n.RecvCnt = Add(cs.RecvCnt, Int(1))
 		s.heap[c.Obj.id] = &n
 		x.recordWrite(s, c.Obj, nil)
@@ -1435,6 +1490,9 @@ func (x *Exec) chanSend(s *State, cv Val, v Val, site ssa.Instruction) {
 		return
 	}
 	n := *cs
+	if x.E.semaphores[c.Obj.id] {
+		n.Held = Add(cs.Held, Int(1))
+	}
 	n.SentCnt = Add(cs.SentCnt, Int(1))
 	if n.Sent != nil {
 		n.Sent = x.ghostSentAppend(s, n.Sent, v)
@@ -1469,6 +1527,12 @@ func (x *Exec) ghostOnRecv(s *State, c *ChanV, cs *ChanStore, site ssa.Instructi
 // ---------------------------------------------------------------- channel invariants
 
 func (x *Exec) attachEngineChanInv(o *Object, ci *ChanInvDecl) {
+	if os.Getenv("GOVC_DEBUGCHAN") != "" {
+		fmt.Fprintf(os.Stderr, "attach %s (#%d) %s dry=%d\n", o.name, o.id, ci.sig(), len(x.dry))
+		if os.Getenv("GOVC_DEBUGCHAN") == "2" && !ci.Open && strings.HasSuffix(o.name, "baseHandler.lines$chan") {
+			debug.PrintStack()
+		}
+	}
 	for _, e := range x.E.chanInvs[o.id] {
 		if e.sig() == ci.sig() {
 			return
@@ -1600,6 +1664,9 @@ func (x *Exec) step(s *State, instr ssa.Instruction) {
 	switch in := instr.(type) {
 	case *ssa.DebugRef:
 		if id, ok := in.Expr.(*ast.Ident); ok {
+			if tv, isVar := in.Object().(*types.Var); isVar && tv.IsField() {
+				return // a field selector, not a variable
+			}
 			v := x.val(s, in.X)
 			if in.IsAddr {
 				s.top().names["&"+id.Name] = v
@@ -2018,6 +2085,8 @@ func (x *Exec) valEq(s *State, a, b Val, in ssa.Instruction) *Term {
 			if p.Obj == nil {
 				return q.Nil
 			}
+			x.E.assumeNote("distinct symbolic objects are assumed not to alias")
+			return And(p.Nil, q.Nil)
 		}
 	case *FuncV:
 		if q, ok := b.(*FuncV); ok {
